@@ -981,6 +981,45 @@ def _c20_per_sig(ps, ctr):
             fails.append('func_from_sig: %s -> %s' % (sig0, sig2))
     except Exception as e:  # noqa
         fails.append('func_from_sig-raises: %r: %s %s' % (text, type(e).__name__, e))
+    # ... also when the text of a default ends in a parenthesis or a bracket or contains the separators the string layer splits on
+    # (values whose repr contains ', ' or ' -> ' are a separate, recorded limitation of the comma-splitting reader: finding D41)
+    tricky = [(), frozenset(), 's)', [], {}, None, '(', 0.5, set(), 'x=1', 'a:b', '*', '/', '))', '=']
+    try:
+        with warnings.catch_warnings():
+            warnings.simplefilter('ignore')
+            for shift in range(3):
+                prms = []
+                j = 0
+                for q in sig0.parameters.values():
+                    if q.default is not q.empty:
+                        prms.append(q.replace(default=tricky[(j + shift * 5 + len(ps)) % len(tricky)]))
+                        j += 1
+                    else:
+                        prms.append(q)
+                if not j:
+                    break
+                for rsig in (sig0.replace(parameters=prms), sig0.replace(parameters=prms, return_annotation=inspect.Signature.empty)):
+                    f3 = support.func_from_sig(rsig)
+                    sig3 = specifiers.signature(f3)
+                    d3 = [(q.name, q.kind, q.default) for q in sig3.parameters.values()]
+                    d0 = [(q.name, q.kind, q.default) for q in rsig.parameters.values()]
+                    if d3 != d0 or str(sig3) != str(rsig):
+                        fails.append('func_from_sig-defaults: %s -> %s' % (rsig, sig3))
+                        break
+    except Exception as e:  # noqa
+        fails.append('func_from_sig-defaults-raises: %r: %s %s' % (text, type(e).__name__, e))
+    if ctr['c20:signatures'] == 1:
+        # deterministic probe of finding D41: a default whose text contains the separators read_sig splits on
+        for dv in ((1, 2), 'a, b', ' -> '):
+            psig = inspect.Signature([inspect.Parameter('a', inspect.Parameter.POSITIONAL_OR_KEYWORD, default=dv)])
+            try:
+                with warnings.catch_warnings():
+                    warnings.simplefilter('ignore')
+                    got = specifiers.signature(support.func_from_sig(psig))
+                if str(got) != str(psig):
+                    fails.append('func_from_sig-separator-in-default: %s -> %s' % (psig, got))
+            except Exception as e:  # noqa
+                fails.append('func_from_sig-separator-in-default: func_from_sig(%s) raised %s' % (psig, type(e).__name__))
     # sort_callsigs partitions like bind_callsig / the function made by f
     with warnings.catch_warnings():
         warnings.simplefilter('ignore')
